@@ -945,6 +945,45 @@ var scenarioTable = map[string]func(s *sc){
 		s.flush(func(p pending, k string) bool { return k == "VC" && p.to == 2 })
 		s.flush(any)
 	},
+	// C03 / C01 (messages of several views in one log): n2 alone becomes prepared in view 0 (on A); everybody times out.  The
+	// Byzantine n1 leads view 1 and equivocates with two VALID NEW_VIEWs built on the same lock-free votes (n0, n3 and its own - a
+	// quorum that leaves out the lock holder): fresh block B to n0 and n3, fresh block C to n2.  n0 and n3 prepare and decide B
+	// (with n1's COMMIT); n2 accepted C but is not prepared in view 1.  The COMMIT quorum for (1, B) then reaches n2, which holds a
+	// prepared certificate of view 0 and the proposal C of view 1: it must not hand anything to its consumer.
+	"commit_quorum_of_view_1_reaches_a_member_locked_in_view_0_holding_another_proposal_of_view_1": func(s *sc) {
+		s.startNodes()
+		s.flush(kinds("PP"))
+		s.flush(func(p pending, k string) bool { return k == "P" && p.to == 2 }) // only n2 sees the PREPAREs: prepared on A
+		s.dropAll(any)
+		for _, i := range []int{0, 2, 3} {
+			s.timeout(i)
+		}
+		var votes []*protocol.ViewChangeMessageContentBuilder
+		for _, m := range s.adv.vcSeen {
+			if uint64(m.View()) == 1 && (m.SenderMemberId().Equal(s.cl.ids[0]) || m.SenderMemberId().Equal(s.cl.ids[3])) {
+				votes = append(votes, genuineVote(m))
+			}
+		}
+		votes = append(votes, s.byzVote(1, 1, 1))
+		s.dropAll(any)
+		b, c := s.adv.newBody(s.run, 1, false), s.adv.newBody(s.run, 1, false)
+		nv := func(x *vBlock) *interfaces.ConsensusRawMessage {
+			return s.adv.mkNV(nvD{inst: clusterInstance, h: 1, v: 1, sender: s.cl.ids[1], votes: votes, pp: ref(protocol.LEAN_HELIX_PREPREPARE, 1, 1, x), ppBy: s.cl.ids[1]}, x)
+		}
+		s.inject(2, nv(c), "nv")
+		s.dropAll(any) // n2's PREPARE(C) goes nowhere
+		for _, i := range []int{0, 3} {
+			s.inject(i, nv(b), "nv")
+		}
+		s.flush(func(p pending, k string) bool { return k == "P" && p.to != 2 }) // n0 and n3 are prepared on B
+		for _, i := range []int{0, 3} {
+			s.inject(i, s.adv.mkC(ref(protocol.LEAN_HELIX_COMMIT, 1, 1, b), s.cl.ids[1], "", ""), "c_byz_or_outsider")
+		}
+		s.flush(func(p pending, k string) bool { return k == "C" && p.to != 2 }) // n0 and n3 decide B
+		s.flush(func(p pending, k string) bool { return k == "C" && p.to == 2 }) // the COMMITs for (1, B) reach n2
+		s.inject(2, s.adv.mkC(ref(protocol.LEAN_HELIX_COMMIT, 1, 1, b), s.cl.ids[1], "", ""), "c_byz_or_outsider")
+		s.flush(any)
+	},
 	// C03/C01: nobody is prepared in view 0 (the PREPAREs for B are lost; the adversary has seen them), but the next leader n1
 	// holds the proposal B.  Everybody times out.  The Byzantine member n3 votes first, with a GENUINE prepared proof for B but
 	// ANOTHER block X attached.  n1 must not count that vote (the block it would re-propose is not the certified one).  Then
